@@ -32,6 +32,7 @@ class Cfg:
     selection: bool = False
     flavours: str = "s"  # s(ync) a(sync)
     kwargs: bool = False  # last dependency passed by keyword
+    # (route s: is_sequential of every node through one entry addressed to the tag all nodes share)
     # how the configuration reaches the DAG: d(ecorators) a(ttribute assignment of max_concurrency) c(onfig_from_dict with
     # priority + is_sequential per node) p(config_from_dict with the priority only: is_sequential must survive)
     # t(config_from_dict addressed through a tag shared by all nodes: one priority for all, is_sequential must survive)
@@ -208,6 +209,12 @@ class Monitor:
         if len(S) >= 2:
             c.cover("w_blocked_on_two")
         running = sorted(f.label for f in S if f.label is not None)
+        if via == "shutdown":
+            # the worker pool is joined while nodes are still running: the invoking thread - for an AsyncDAG the event loop -
+            # is held until they finish (the scheduler itself only shuts the pool down when everything is done)
+            self.chk("C17", s["flavour"] != "a", "the event loop is blocked by a pool shutdown while %s are still running" % running,
+                     {"blocked_on": running, "via": via})
+            return
         # adversarial timing: everything in flight outside S has finished already
         out = [l for l in self.unobserved() if l not in running and self.kind[l] != "inline"]
         saved = set(self.obs)
@@ -364,7 +371,7 @@ def run_sched(cfg: Cfg, c: Ctx) -> Any:
         c.assume(mc.z == cfg.mc_fixed)
     route = cfg.routes[c.choose(len(cfg.routes), "route")] if len(cfg.routes) > 1 else cfg.routes
     mc0, prio0, seq0 = mc, prio, seq
-    do_warm = bool(cfg.warmup and route in "cpt" and c.choose(2, "warmup"))
+    do_warm = bool(cfg.warmup and route in "cpts" and c.choose(2, "warmup"))
     if route != "d":
         mc0 = c.int("mc_at_build")
         c.assume(mc0.z >= 1)
@@ -378,6 +385,11 @@ def run_sched(cfg: Cfg, c: Ctx) -> Any:
         prio0 = {l: (c.int("p_at_build_" + l) if sym0 else 0) for l in labels}
         shared = c.int("p_shared") if cfg.sym_prio else 0
         prio = {l: shared for l in labels}
+    elif route == "s":
+        # the sequential flag of every node comes from one configuration entry addressed to their shared tag
+        seq0 = {l: (c.bool("seq_at_build_" + l) if cfg.sym_seq else False) for l in labels}
+        shared_seq = c.bool("seq_shared") if cfg.sym_seq else True
+        seq = {l: shared_seq for l in labels}
     wrapped: Optional[str] = None
     inner_flag = False
     if cfg.nested:
@@ -422,7 +434,7 @@ def run_sched(cfg: Cfg, c: Ctx) -> Any:
         c.assume(z3.Distinct([cp[l] for l in labels]) if len(labels) > 1 else True)
     c.heavy()
     spec: Dict[str, Any] = dict(labels=labels, alldeps=alldeps, res=res, seq=seq, mc=mc, fail=fail, desc=desc,
-                                exec_set=exec_set, cp=cp, ref_args={}, ref_val={}, active={},
+                                exec_set=exec_set, cp=cp, ref_args={}, ref_val={}, active={}, flavour=flavour,
                                 shape_key=(tuple(tuple(alldeps[l]) for l in labels), tuple(res[l] for l in labels), sel, flavour, route))
     mon = Monitor(c, cfg, spec)
     real_schedule = REAL.get("schedule")
@@ -531,6 +543,8 @@ def run_sched(cfg: Cfg, c: Ctx) -> Any:
         pipe.config_from_dict({"nodes": {ids[l]: {"priority": prio[l]} for l in labels}, "max_concurrency": mc})
     elif route == "t":
         pipe.config_from_dict({"nodes": {"g": {"priority": shared}}, "max_concurrency": mc})
+    elif route == "s":
+        pipe.config_from_dict({"nodes": {"g": {"is_sequential": shared_seq}}, "max_concurrency": mc})
 
     from tawazi import cfg as twz_cfg
 
